@@ -14,7 +14,7 @@ def na3(path): return (list(path) + [0, 0, 0])[:3]
 
 class Session:
     """builds one script block"""
-    def __init__(self, sid, cfg, cfgdir, paths=None, present=None, full=True, extra_nodes=(), flush_ms=0, rounds=12, tree=None, boot=False, bus_opts=(), script=None):
+    def __init__(self, sid, cfg, cfgdir, paths=None, present=None, full=True, extra_nodes=(), flush_ms=0, rounds=12, tree=None, boot=False, bus_opts=(), script=None, reboot=False):
         """tree: list of (path, uid) played by the bus simulator (default: derived from paths / the configuration);
         boot: start-up session (automatic replies on, no drain rounds, transcript + connectivity checked, C15/C20)"""
         self.sid = sid; self.cfg = cfg; self.full = full; self.nb = 0; self.stopped = False; self.boot = boot
@@ -48,7 +48,25 @@ class Session:
             s.add("tick 3"); s.add("drain")
         else:
             s.add("waitidle"); self.drain_lines.append(len(s.lines)); s.add("flush")
+            self._boot_drain(self.drain_lines)
         self.start_get = len(s.lines); s.add("getall")
+        self.reboot = None
+        if boot and reboot:
+            # a later system reset repeats the whole start-up (C20: "during startup and after every system reset")
+            a = len(s.lines); s.add("ll bidib_send_sys_reset"); s.add("waitidle"); b = len(s.lines); s.add("flush")
+            more = []; self._boot_drain(more)
+            c = len(s.lines); s.add("getall")
+            self.reboot = (a, [b] + more, c)
+
+    def _boot_drain(self, lines):
+        # start-up messages held back by a node's response budget are released by later traffic from that node: a few
+        # rounds of "2 s pass, every node says something" belong to the start-up transcript
+        s = self.s
+        for _ in range(5):
+            s.add("tick 3")
+            for n in self.nodes:
+                lines.append(len(s.lines)); s.add("feed " + wire.hexs(wire.packet([wire.msg(n, 0, 0x82, [0])])))
+        lines.append(len(s.lines)); s.add("flush"); s.add("drain")
 
     # ---- logical events
     def _add(self, line, tmpl, drain=False, get=True):
@@ -128,10 +146,13 @@ def to_events(sess, rr):
     if not st_line: return [], ["no start output"]
     if st_line[0].get("ret") != 0: return [], ["start returned %s" % st_line[0].get("ret")]
     # last sequence number per node over startup + drain rounds (decoded with the independent python codec, mechanical)
-    bs = wire_of(st_line)
+    # everything written between the start call and the first projection belongs to the start-up transcript (writes of
+    # the receiver thread are reported with whatever script line is executing at that moment)
+    bs = []
+    for ln in range(sess.start_line, sess.start_get): bs += wire_of(out.get(ln, []))
     tail_quiet = True
     for k, ln in enumerate(sess.drain_lines):
-        o = out.get(ln, [{}]); w = wire_of(o); bs += w
+        w = wire_of(out.get(ln, [{}]))
         if w and k >= len(sess.drain_lines) - 2 * max(1, len(sess.nodes)): tail_quiet = False
     if not tail_quiet and not sess.boot: probs.append("startup traffic not drained")
     last = {}
@@ -145,6 +166,13 @@ def to_events(sess, rr):
             "nost": 1 if sess.boot else 0, "st": 0 if sess.boot else keyed(g[0]["st"]),
             }]
     if sess.boot: evs += [{"e": "bootw", "w": bs}, {"e": "booti"}, {"e": "boot", "conn": keyed(g[0]["st"])["boards"]}]
+    if sess.boot and sess.reboot:
+        a, b, c = sess.reboot
+        if not (out.get(a) and all(out.get(x) for x in b) and out.get(c)): probs.append("no output of the second reset")
+        else:
+            w2 = []
+            for ln in range(a, c): w2 += wire_of(out.get(ln, []))
+            evs += [{"e": "bootw", "w": w2}, {"e": "booti"}, {"e": "boot", "conn": keyed(out[c][0]["st"])["boards"]}]
     for e in sess.ev:
         a = out.get(e["act"])
         if not a: probs.append("missing output at line %d" % e["act"]); break
